@@ -1,10 +1,12 @@
 //! mqttmc — model-checking harness for redboltz/mqtt-protocol-core (see /verif/DESIGN.md).
 mod bridge;
 mod conn;
+mod ep;
 mod explore;
 mod refcodec;
 mod props;
 mod report;
+mod rules;
 mod util;
 
 use report::Report;
@@ -44,6 +46,7 @@ fn main() {
             }
             let mut rep = Report::new(&id, &tier, level_of(&id));
             let r = util::guarded(|| match id.as_str() {
+                "C06" => props::c06::run(&mut rep),
                 "C09" => props::c09::run(&mut rep),
                 "C20" => props::c20::run(&mut rep),
                 _ => {
@@ -68,6 +71,7 @@ fn main() {
                 .unwrap_or_default();
             println!("replaying {} ({}), {} steps; expected: {}", prop, config, labels.len(), v["detail"]);
             let out = match prop.as_str() {
+                "C06" => props::c06::replay(&config, &labels),
                 "C09" => props::c09::replay(&v),
                 "C20" => props::c20::replay(&config, &labels),
                 _ => Err(format!("no replayer for {prop}")),
